@@ -1011,9 +1011,16 @@ C09_CliStreamLevel ==
      \/ rp[r].shape \in {"unary", "cstream"} /\ w.sMsgsD = 0 /\ w.closeDeliv /\ w.close.code = 0
           /\ (rp[r].cRes.cls = "eof" \/ (rp[r].cRes.cls = "err" /\ rp[r].cRes.code = -1))
 \* a caller whose stream was hit by a violation noticed on delivery is not left blocked
+\* ... nor is a caller (or handler) whose read has reached a framing violation: once such a frame was delivered,
+\* a read of that stream cannot be waiting at a quiescent point - it fails with the violation (it can never be
+\* waiting for "the rest" of a message that was overshot, restarted or continued without an envelope)
 C09_CliReleased ==
-  (q.at /\ q.parked = <<>> /\ RealCli /\ ~RealSrv) => \A b \in BlockedOps :
-     (b[1] = "c" /\ b[2] \in ORpcs /\ rp[b[2]].sid \in OSids) => ~ws[rp[b[2]].sid].cViolNow
+  /\ (q.at /\ q.parked = <<>> /\ RealCli /\ ~RealSrv) => \A b \in BlockedOps :
+        (b[1] = "c" /\ b[2] \in ORpcs /\ rp[b[2]].sid \in OSids) =>
+           /\ ~ws[rp[b[2]].sid].cViolNow
+           /\ (b[3] = "recv" /\ FCExpected) => ws[rp[b[2]].sid].cViol = {}
+  /\ (q.at /\ q.parked = <<>> /\ RealSrv /\ ~RealCli /\ FCExpected) => \A b \in BlockedOps :
+        (b[1] = "s" /\ b[3] = "recv" /\ b[2] \in ORpcs /\ rp[b[2]].sid \in OSids) => ws[rp[b[2]].sid].sViol = {}
 \* the receive loops are never wedged: at a quiescent point they wait for the next frame or have
 \* returned (flow control negotiated)
 C09_NotWedged ==
